@@ -368,6 +368,14 @@ PROPS = {
                      "the clauses 'the difference set a zone reports when a change is committed, applied to the old content, yields the new "
                      "content' (diff of every commit after one open(true), incl. RRsets written twice in one version) and 'never leave a "
                      "partially applied version visible' (abandoned writes, also after commit + re-open as the updater does per IXFR batch)"},
+            {"bin": "c10_search_xfr_end_to_end", "crate": "replay_xfr", "release": True,
+             "what": "the statement end to end on 511 version pairs (version 1 = a fixed eight-record zone, version 2 = version 1 after every non-empty "
+                     "subset of nine elementary changes: apex NS added, apex A changed, an A changed below the apex, a name added, a name removed, an "
+                     "RRset grown, shrunk, given another TTL, replaced with growth and shrinkage at once): the sender applies the change through "
+                     "ZoneUpdater; the diff reported at commit applied to version 1 gives version 2; the XFR middleware serves it as IXFR, the "
+                     "response interpreter and a ZoneUpdater apply it to a receiver holding version 1, which then holds version 2; the middleware "
+                     "serves version 2 as AXFR to an empty receiver, which then holds version 2 -- on the real crate (server and client harness "
+                     "written by a round-7 seeding sub-agent)"},
         ],
         "kani": [],
         "replays": [
@@ -383,8 +391,8 @@ PROPS = {
                        "required, AXFR ends on a copy of the opening SOA, DeleteAllRecords exactly once before the first AXFR update, "
                        "IXFR delete/add phases toggle exactly on SOA records, fallback to AXFR when the second record is not a SOA, "
                        "nothing accepted after the end), with stream-level consequences as lemmas over the step function.",
-        "not_covered": "Reconstruction fidelity end to end (zone walk/diff, batching into messages, applying updates to the zone tree, "
-                       "atomic visibility), XfrZoneUpdateIterator::next (tracing macros, Option::transpose), TSIG on streams, the "
+        "not_covered": "Reconstruction fidelity end to end beyond the 511 version pairs of c10_search_xfr_end_to_end (other record types, zones "
+                       "that need several messages, multi-step IXFR sequences, faults in the stream), XfrZoneUpdateIterator::next (tracing macros, Option::transpose), TSIG on streams, the "
                        "server side (batcher, responder). Message/record/SOA types are prelude models, not the real generic types.",
         "assumptions": [
             "Message<Bytes>, ParsedRecord, ZoneRecordData, Soa, Rtype, Opcode are reduced prelude models (arbitrary header fields, question type and first answer record)",
